@@ -13,6 +13,8 @@
 //!     (single-word version only).  Harness-side agreement (impl against impl): every accessor of the eager API,
 //!     every `*_at` repetition, `Alignment` fields, both against `find_all_end`, block-based against single-word,
 //!     `*_at` at a position not yet searched → `None`.
+//! Generator: `gen_case` (random histories, see DESIGN §7 / docs/notes/C10.md) and `gen_overhang` (structured history:
+//! ring wrapped by an earlier search, then hits overhanging the text start by more than one word).
 use crate::c09::mu;
 use crate::util::*;
 
@@ -101,6 +103,126 @@ fn gen_case(rng: &mut Rng, out: &mut Vec<String>, i: usize) {
     out.push(format!("{} {} {} {} {} {} {}", ws, wl, mode, hex(&p), mu::show_amb(&amb), hex(&wild), ss.join("/")));
 }
 
+/// "overhang after wrap": one block-based object, several blocks.  (1) an eager search on a long text without
+/// (close) occurrences: the ring buffer of `find_all` wraps, so that slot 0 — the guard column left of the initial
+/// column of every later search — holds a real column in *all* blocks; (2) searches (eager and lazy) on texts that
+/// begin in the middle of an occurrence: the hit at the very start of the text has more than one word of leading
+/// `Ins`, so its traceback reaches the initial column in a lower block and looks at the lower blocks of the guard
+/// column (`LongStatesHandler::set_max_state` has to reset every block of it).  Needs k > w.
+fn gen_overhang(rng: &mut Rng, out: &mut Vec<String>, tier: &str) {
+    let w: usize = match rng.below(16) {
+        0..=10 => 8,
+        11..=14 => 16,
+        _ => {
+            if tier == "thorough" && rng.chance(1, 4) {
+                64
+            } else {
+                32
+            }
+        }
+    };
+    // 2–4 blocks (u8), 2–3 (u16), 2 (u32/u64: a few symbols beyond the first block); m ≥ w + 3: a path that
+    // reaches the initial column in row w + 2 (there the diagonal neighbour is in block 1 of the guard column; in row
+    // w + 1 it is still in block 0) and still ends at a text position
+    let m = match w {
+        8 => w + 3 + rng.below(3 * w - 4),
+        16 => w + 3 + rng.below(2 * w - 2),
+        _ => w + 3 + rng.below(12),
+    };
+    // The traceback tests Ins before Match, so an overhanging hit keeps its leading Ins run (and reaches the initial
+    // column in a lower block) only where the rest of the pattern cannot be matched further down as well: mostly
+    // large alphabets and non-periodic patterns.
+    let alpha: Vec<u8> = match rng.below(8) {
+        0 | 1 => vec![b'a', b'c', b'g', b't'],
+        2 => {
+            if rng.chance(1, 2) {
+                vec![b'a', b'b', b'c']
+            } else {
+                vec![b'a', b'b']
+            }
+        }
+        3..=5 => (b'a'..=b'p').collect(),
+        _ => (b'a'..=b'w').collect(),
+    };
+    let foreign: Vec<u8> = vec![b'x', b'y', b'z'];
+    let p = if rng.chance(1, 4) { mu::pattern(rng, &alpha, m) } else { rng.seq(&alpha, m) };
+    // single-word partner (identical alignments demanded) for half of the lines
+    let ws = if m <= 64 && rng.chance(1, 2) { 64 } else { 0 };
+    let mode = if rng.chance(1, 4) { "bld" } else { "new" };
+    let mut ss = vec![];
+    let later = 2 + rng.below(3);
+    // offsets into the pattern at which the later texts begin: more than one word is missing
+    let cut = |rng: &mut Rng| {
+        if rng.chance(1, 2) {
+            w + 2 + rng.below((m - w - 2).min(4))
+        } else {
+            w + 1 + rng.below(m - w - 1)
+        }
+    };
+    let d0 = cut(rng);
+    let kmax = (d0 + rng.below(3)).min(m);
+    // (1) the wrapping search: k1 large enough that the lower blocks are computed (dist of block b of an unrelated
+    // column is about (b+1)·w; a block is computed while the one above is ≤ k1), text without the pattern's
+    // symbols (D[i][j] = i: no hits for k1 < m) or random
+    let k1 = match rng.below(4) {
+        0 => kmax,
+        1 => m - 1,
+        2 => m,
+        _ => kmax + rng.below(m - kmax + 1),
+    };
+    let ncols = m + k1.min(m) + 2;
+    let n1 = ncols - 1 + rng.below(2 * ncols);
+    let t1 = if rng.chance(2, 3) {
+        let fa = if rng.chance(1, 2) { foreign[..1].to_vec() } else { foreign.clone() };
+        rng.seq(&fa, n1)
+    } else {
+        let mut t = rng.seq(&alpha, n1);
+        if 2 * k1 >= m {
+            t.truncate(ncols + 3 + rng.below(8));
+        }
+        t
+    };
+    ss.push(format!("E:{}:{}:{}", k1, rng.below(5), hex(&t1)));
+    // (2) texts beginning in the middle of an occurrence
+    for j in 0..later {
+        let d = if j == 0 { d0 } else { cut(rng) };
+        let e = *rng.pick(&[0usize, 0, 0, 1, 2]);
+        let ta = if rng.chance(1, 3) { &foreign } else { &alpha };
+        // degenerate overhang (1/5): nothing of the pattern is left, k ≥ m − 1: the hits at the first positions are
+        // m − 1, m − 2, … Ins followed by Subst
+        let nothing = rng.chance(1, 5);
+        let (t, k) = if nothing {
+            let n = 1 + rng.below(6);
+            (rng.seq(ta, n), m - 1 + rng.below(3))
+        } else {
+            let mut t = mu::plant(rng, &p[d..], &alpha, e, m);
+            let tail = *rng.pick(&[0usize, 0, 1, 2, 3, w, m / 2, m]);
+            t.extend(rng.seq(ta, tail));
+            let k = match rng.below(6) {
+                0 => m,
+                1 => d + e,
+                2 => (d + e).saturating_sub(1).max(w + 1),
+                _ => (d + e + rng.below(3)).min(m),
+            };
+            (t, k)
+        };
+        if rng.chance(1, 2) {
+            let n = 1 + rng.below(4);
+            let script: String = (0..n).map(|_| char::from(b'0' + rng.below(5) as u8)).collect();
+            ss.push(format!("E:{}:{}:{}", k, script, hex(&t)));
+        } else {
+            ss.push(format!("L:{}:{}:{}", k, rng.below(1 << 30), hex(&t)));
+        }
+        // now and then another wrapping search in between (slot 0 is overwritten again)
+        if j + 1 < later && rng.chance(1, 4) {
+            let n = m + k.min(m) + 1 + rng.below(m);
+            ss.push(format!("E:{}:0:{}", k, hex(&rng.seq(&foreign, n))));
+        }
+    }
+    let none: Vec<u8> = vec![];
+    out.push(format!("{} {} {} {} {} {} {}", ws, w, mode, hex(&p), mu::show_amb(&[]), hex(&none), ss.join("/")));
+}
+
 fn enum_seqs(alpha: &[u8], maxlen: usize, minlen: usize) -> Vec<Vec<u8>> {
     let mut out = vec![];
     let mut cur: Vec<Vec<u8>> = vec![vec![]];
@@ -125,6 +247,11 @@ pub fn gen(tier: &str, rng: &mut Rng, out: &mut Vec<String>) {
     let n = if tier == "thorough" { 200_000 } else { 5_000 };
     for i in 0..n {
         gen_case(rng, out, i);
+    }
+    // structured history (after the random cases, so that their random stream is unchanged)
+    let n_over = if tier == "thorough" { 20_000 } else { 400 };
+    for _ in 0..n_over {
+        gen_overhang(rng, out, tier);
     }
     if tier == "thorough" {
         // exhaustive small scope: all p (1..=4), t (0..=7) over {a,b}, k 0..=4; u8 single + u8 blocks
